@@ -86,7 +86,7 @@ class Pair(object):
             self.sset.virtual_hosts = [vh]
 
     # -- handshake ops ------------------------------------------------------
-    def client_gen(self, session=None):
+    def client_gen(self, session=None, blocking=False):
         sc = self.scen
         c = self.c.conn
         fl = sc.get("flavour", "cert")
@@ -103,19 +103,24 @@ class Pair(object):
                 kw["nextProtos"] = [a.encode() for a in sc["npn_c"]]
             return lambda: c.handshakeClientCert(
                 chain, key, session=session, settings=self.cset,
-                checker=sc.get("_checker_c"), async_=True, **kw)
+                checker=sc.get("_checker_c"), async_=not blocking, **kw)
         if fl in ("srp", "srp_cert"):
             return lambda: c.handshakeClientSRP(
                 sc.get("srp_user", "test"), sc.get("srp_pass", "password"),
-                session=session, settings=self.cset, async_=True, **kw)
+                session=session, settings=self.cset, async_=not blocking,
+                **kw)
         if fl == "anon":
             return lambda: c.handshakeClientAnonymous(
-                session=session, settings=self.cset, async_=True, **kw)
+                session=session, settings=self.cset, async_=not blocking,
+                **kw)
         raise ValueError(fl)
 
-    def server_gen(self, cache=None):
+    def server_gen(self, cache=None, blocking=False):
         sc = self.scen
         s = self.s.conn
+        # the blocking entry point is a separate wrapper with its own
+        # argument forwarding
+        hs_ = s.handshakeServer if blocking else s.handshakeServerAsync
         fl = sc.get("flavour", "cert")
         kw = {}
         if sc.get("alpn_s") is not None:
@@ -142,22 +147,22 @@ class Pair(object):
                 kw["dc_key"] = dck
                 kw["del_cred"] = dc
                 key = None
-            return lambda: s.handshakeServerAsync(
+            return lambda: hs_(
                 certChain=chain, privateKey=key,
                 reqCert=bool(sc.get("req_cert")), settings=self.sset,
                 checker=sc.get("_checker_s"), **kw)
         if fl == "srp":
             db = creds.verifier_db()
-            return lambda: s.handshakeServerAsync(
+            return lambda: hs_(
                 verifierDB=db, settings=self.sset, **kw)
         if fl == "srp_cert":
             db = creds.verifier_db()
             chain, key = creds.load("server", sc.get("skey", "rsa"))
-            return lambda: s.handshakeServerAsync(
+            return lambda: hs_(
                 verifierDB=db, certChain=chain, privateKey=key,
                 settings=self.sset, **kw)
         if fl == "anon":
-            return lambda: s.handshakeServerAsync(
+            return lambda: hs_(
                 anon=True, settings=self.sset, **kw)
         raise ValueError(fl)
 
